@@ -420,6 +420,29 @@ func (w *World) disposeStorable(s atree.Storable) error {
 	if s == nil {
 		return nil
 	}
+	if w.Cfg.LazyDispose {
+		cur := s
+		for {
+			ws, ok := cur.(SomeS)
+			if !ok {
+				break
+			}
+			cur = ws.S
+		}
+		if id, ok := cur.(atree.SlabIDStorable); ok {
+			if slab := w.Storage.RetrieveIfLoaded(atree.SlabID(id)); slab == nil {
+				// not loaded: is it a large value?  peek at the register head without decoding through the storage
+				if raw, ok := w.Ledger.Regs[RegIDOf(atree.SlabID(id))]; ok && len(raw) >= 2 && raw[1]&0x1f == 0x1f {
+					if err := w.Storage.Remove(atree.SlabID(id)); err != nil {
+						return fmt.Errorf("Remove of referenced slab: %w", err)
+					}
+					w.Stats.Inc("dispose.slabref")
+					w.Stats.Inc("dispose.removed-without-loading")
+					return nil
+				}
+			}
+		}
+	}
 	v, err := s.StoredValue(w.Storage)
 	if err != nil {
 		return fmt.Errorf("StoredValue of returned storable: %w", err)
